@@ -709,6 +709,7 @@ func C36(c *Ctx) {
 			}
 		}
 	}
+	watchdogUntruncatedGroup(c, "K2.watchdog-keeps-untruncated-groups")
 	const r4 = "K11.flush-order"
 	flushOrderGroup(c, r4)
 	const r3 = "K2.can-remove-shape"
@@ -1294,4 +1295,106 @@ func rangesOverParam(v ssa.Value, ok map[ssa.Value]bool, depth int) bool {
 		return rangesOverParam(x.X, ok, depth-1)
 	}
 	return false
+}
+
+// watchdogUntruncatedGroup (C36): metrics.AnalyzeWALBacklog decides which segments holding raft
+// records the watchdog may remove.  A group that has written records but never truncated its log
+// (SegmentIndex == 0, Segment > 0) still needs every record it wrote; which group wrote the
+// records of a segment is not known there, so the presence of such a group has to veto the
+// candidates.  Structurally: a boolean that is set on the SegmentIndex==0 edge (a phi fed from a
+// block behind that edge) guards the append to the candidate list.
+func watchdogUntruncatedGroup(c *Ctx, rule string) {
+	c.Rule(rule, "metrics.AnalyzeWALBacklog: the append to the removable-segment candidates is guarded by a flag that is set on the `RaftLogPointer.SegmentIndex == 0` edge (a group without a truncation point), as levelManager.canRemoveWalSegment does")
+	fn := c.Fn("metrics", "AnalyzeWALBacklog")
+	if fn == nil {
+		return
+	}
+	// edges taken when SegmentIndex == 0
+	type edge [2]*ssa.BasicBlock
+	var untrunc []edge
+	for _, b := range fn.Blocks {
+		ifi := ifOf(b)
+		if ifi == nil {
+			continue
+		}
+		bo, ok := ifi.Cond.(*ssa.BinOp)
+		if !ok || !isFieldLoad(bo.X, "manifest.RaftLogPointer", "SegmentIndex") {
+			continue
+		}
+		if k, isK := ConstInt(bo.Y); !isK || k != 0 {
+			continue
+		}
+		switch bo.Op {
+		case token.EQL:
+			untrunc = append(untrunc, edge{b, b.Succs[0]})
+		case token.GTR, token.NEQ:
+			untrunc = append(untrunc, edge{b, b.Succs[1]})
+		}
+	}
+	behind := func(p *ssa.BasicBlock) bool {
+		for _, e := range untrunc {
+			if e[1] == p && len(p.Preds) == 1 || EdgeDominates(e[0], e[1], p) {
+				return true
+			}
+		}
+		return false
+	}
+	flagged := map[ssa.Value]bool{}
+	for changed := true; changed; {
+		changed = false
+		AllInstrs(fn, false, func(in ssa.Instruction) {
+			ph, ok := in.(*ssa.Phi)
+			if !ok || ph.Type().String() != "bool" || flagged[ph] {
+				return
+			}
+			for i, e := range ph.Edges {
+				if flagged[e] {
+					flagged[ph], changed = true, true
+					return
+				}
+				if k, isK := e.(*ssa.Const); isK && k.Value != nil && k.Value.String() == "true" && behind(ph.Block().Preds[i]) {
+					flagged[ph], changed = true, true
+					return
+				}
+			}
+		})
+	}
+	var mentions func(v ssa.Value, d int) bool
+	mentions = func(v ssa.Value, d int) bool {
+		if d <= 0 || v == nil {
+			return false
+		}
+		if flagged[v] {
+			return true
+		}
+		switch x := v.(type) {
+		case *ssa.UnOp:
+			return mentions(x.X, d-1)
+		case *ssa.BinOp:
+			return mentions(x.X, d-1) || mentions(x.Y, d-1)
+		}
+		return false
+	}
+	n, guarded := 0, true
+	AllInstrs(fn, false, func(in ssa.Instruction) {
+		call, ok := in.(*ssa.Call)
+		if !ok {
+			return
+		}
+		if bi, isB := call.Call.Value.(*ssa.Builtin); !isB || bi.Name() != "append" || !strings.Contains(call.Type().String(), "uint32") {
+			return
+		}
+		n++
+		g := false
+		for _, b := range fn.Blocks {
+			if ifi := ifOf(b); ifi != nil && b.Dominates(in.Block()) && b != in.Block() && mentions(ifi.Cond, 4) {
+				g = true
+			}
+		}
+		if !g {
+			guarded = false
+		}
+	})
+	c.Decide(n >= 1 && guarded, rule, key(fn, "candidates<-no-untruncated-group"), fn.Pos(), n+len(untrunc)+1, "segments holding raft records are candidates only when every group has a truncation point",
+		"AnalyzeWALBacklog offers every segment with raft records below the lowest pointer for removal although a group that never truncated its log (SegmentIndex == 0) still needs all of its records: the watchdog (on by default) deletes the older part of that group's live log and OpenWALStorage fails with a missing log entry after a restart")
 }
